@@ -96,7 +96,9 @@ func checkDeadline(c deadlineCase) *rp.Fail {
 	ev.Case(class, true, fmt.Sprintf("%+v", c))
 	f := runDeadline(c, 1)
 	if f != nil {
-		for _, scale := range []int{4, 12} {
+		// (three re-runs, the last with a margin of seconds: at load averages above 100 a reply that is due 0.8 s before the
+		// deadline has been seen to arrive after it)
+		for _, scale := range []int{4, 12, 40} {
 			f2 := runDeadline(c, scale)
 			if f2 == nil {
 				ev.Inconclusive(1)
